@@ -2,11 +2,18 @@ from lanes import *  # noqa
 
 PROP = {
     "level": "exploration",
-    "level_text": "TODO",
-    "level_note": "TODO",
-    "technique": "runtime monitoring: reference renderer and normal-form equality over seeded part sequences and fixed macro literals",
-    "assumptions": [],
+    "level_text": "Seeded exploration with a reference renderer and normal-form equality as oracle: 300 k (quick) to 12 M (thorough) seeded part sequences over an alphabet with 1-4 byte characters, braces and spaces (empty fragments, adjacent fragments, repeated and empty labels, holes with formatters), each built in every construction variant (borrowed, 'static, owned, shared Str, by_ref, to_owned, clone, new_owned, literal), rendered through Display, Render::write into a String, a writer that only has the trait defaults, a callback-recording writer, Template's own Display and Event::msg(), with property sets that contain duplicates and absences; `==` is asked in both argument orders on re-splittings, one-edit neighbours, independently drawn (unrelated) pairs and all variants of one model, plus reflexivity and transitivity over every triple of five related templates, all under catch_unwind. 56 fixed tpl!/evt!/format! literal call sites are compared with the runtime-built template of the same literal and, for #[emit::fmt] flags, with std::format!. Held-on-what-was-observed, not a proof over all texts; the generated-programs lane for literals is added separately.",
+    "level_note": "Trusts the reference renderer / normal form in harness/mon/src/bin/c16.rs and that Value's Display of i64 / f64 / bool / str equals the std text of the same value (checked at start-up; a mismatch makes the run inconclusive instead of blaming templates). The Miri lane watches Str's raw-pointer ownership (owned / shared / borrowed text and labels through to_owned, by_ref, clone and drop) and the byte-offset slicing in PartialEq while the same workload runs at tiny scale.",
+    "technique": "runtime monitoring: reference renderer and normal-form equality over seeded part sequences, hand-written boundary pairs and fixed macro literals; Miri build of the same monitor",
+    "assumptions": [
+        "hole formatters are compared by applying the same function to the model value directly (the formatter is part of the input, not of the template code)",
+        "whether an empty text fragment produces a write_text callback is not settled by the statement: callbacks are compared after merging adjacent text and dropping empty text",
+        "equality ignores hole formatters (labels only), as the statement says 'the same holes in the same positions'",
+        "writers that return errors are out of scope of the statement and not exercised",
+        "macro literals are a fixed hand-written set here; the generated-programs lane covers 'all template literals accepted by the macros'",
+    ],
     "lanes": [
         native("c16"),
+        miri("c16", seeds_q=0, seeds_t=8, scale=100),
     ],
 }
